@@ -66,42 +66,7 @@ func (w *World) proveLemma(lm *Lemma, sv *Solver, timeout int) (res OblResult) {
 	}
 	// instances of other lemmas (proved in the same run) are assumed
 	for _, u := range lm.Uses {
-		call, ok := u.(*ast.CallExpr)
-		if !ok {
-			cerr("lemma %s: bad uses clause", lm.Name)
-		}
-		id, ok := call.Fun.(*ast.Ident)
-		if !ok {
-			cerr("lemma %s: bad uses clause", lm.Name)
-		}
-		var used *Lemma
-		for _, l2 := range w.lemmas {
-			if l2.Name == id.Name {
-				used = l2
-			}
-		}
-		if used == nil || used == lm {
-			cerr("lemma %s uses unknown lemma %s", lm.Name, id.Name)
-		}
-		fe, err := parser.ParseExpr("func(" + used.Vars + "){}")
-		if err != nil {
-			cerr("lemma variables: %v", err)
-		}
-		uenv := &CEnv{c: c, st: st, old: st, bound: map[string]CVal{}}
-		k := 0
-		for _, fld := range fe.(*ast.FuncLit).Type.Params.List {
-			t := c.typeFromExpr(env, fld.Type)
-			for _, nm := range fld.Names {
-				if k >= len(call.Args) {
-					cerr("lemma %s: too few arguments for %s", lm.Name, used.Name)
-				}
-				av := c.materialize(c.evalExpr(env, call.Args[k]), t)
-				uenv.bound[nm.Name] = CVal{V: av.V, T: t}
-				k++
-			}
-		}
-		c.assume("true", c.evalBool(uenv, used.Expr, used.Text))
-		c.depsUsed["lemma "+used.Name+" (proved in the same run)"] = true
+		c.assume("true", c.lemmaInstance(env, u, lm))
 	}
 	f := c.evalBool(env, lm.Expr, lm.Text)
 	o := Obl{Name: name, Kind: "lemma", Props: lm.Props, Reach: "true", Cond: f, NDecl: len(c.decls), NAsm: len(c.asms), Expr: lm.Text, Fn: "lemma"}
@@ -112,4 +77,47 @@ func (w *World) proveLemma(lm *Lemma, sv *Solver, timeout int) (res OblResult) {
 	}
 	res = sv.solveOne(c, o, timeout, true)
 	return res
+}
+
+// lemmaInstance evaluates `lemmaName(e1, ..)`: the named lemma's statement with its variables bound to the arguments
+// (evaluated in env). The lemma itself is proved in the same run (every lemma is an obligation of the properties it is
+// tagged with).
+func (c *Ctx) lemmaInstance(env *CEnv, u ast.Expr, self *Lemma) string {
+	w := c.w
+	call, ok := u.(*ast.CallExpr)
+	if !ok {
+		cerr("bad uses clause")
+	}
+	id, ok := call.Fun.(*ast.Ident)
+	if !ok {
+		cerr("bad uses clause")
+	}
+	var used *Lemma
+	for _, l2 := range w.lemmas {
+		if l2.Name == id.Name {
+			used = l2
+		}
+	}
+	if used == nil || used == self {
+		cerr("uses unknown lemma %s", id.Name)
+	}
+	fe, err := parser.ParseExpr("func(" + used.Vars + "){}")
+	if err != nil {
+		cerr("lemma variables: %v", err)
+	}
+	uenv := &CEnv{c: c, st: env.st, old: env.old, bound: map[string]CVal{}}
+	k := 0
+	for _, fld := range fe.(*ast.FuncLit).Type.Params.List {
+		t := c.typeFromExpr(env, fld.Type)
+		for _, nm := range fld.Names {
+			if k >= len(call.Args) {
+				cerr("too few arguments for lemma %s", used.Name)
+			}
+			av := c.materialize(c.evalExpr(env, call.Args[k]), t)
+			uenv.bound[nm.Name] = CVal{V: av.V, T: t}
+			k++
+		}
+	}
+	c.depsUsed["lemma "+used.Name+" (proved in the same run)"] = true
+	return c.evalBool(uenv, used.Expr, used.Text)
 }
